@@ -3,6 +3,6 @@ CONSTANTS
   MaxLen0 = @@MAXLEN0@@
   Emit = TRUE
 ACTION_CONSTRAINT EmitEdge
-INVARIANTS PrefixLaw SubstringWhole SplitJoinLaw TrimIdempotent
+INVARIANTS PrefixLaw SubstringWhole SubstringSymmetric SplitJoinLaw TrimIdempotent
 PROPERTIES ReceiverUntouched
 CHECK_DEADLOCK FALSE
